@@ -56,6 +56,9 @@ Qed.
 Lemma spec_ext f e e' d d' : spec f e d -> (forall s, e s = e' s) -> (forall s, d s = d' s) -> spec f e' d'.
 Proof. intros H E D st. specialize (H st). destruct (f st) as [[st' evs] ok]. now rewrite <- E, <- D. Qed.
 
+Lemma scal_eq (a b c a' b' c' : Z) : a = a' -> b = b' -> c = c' -> (a, b, c) = (a', b', c').
+Proof. now intros -> -> ->. Qed.
+
 (** * the primitive steps *)
 Lemma spec_call_op tag op pm tm_ :
   spec (call_op tag op pm tm_) (fun s => match s with (t, tm, _) => [(tag, t, tm, 0%Z)] end) (fun s => s).
@@ -126,8 +129,8 @@ Proof.
   eapply spec_ext; [apply spec_iter, spec_generation | |].
   - induction n as [|n IH]; intros [[t tm] rep]; cbn [iter_sig gens_sig]; [reflexivity|]. now rewrite IH.
   - induction n as [|n IH]; intros [[t tm] rep]; cbn [iter_d].
-    + repeat (f_equal; try lia).
-    + rewrite IH. repeat (f_equal; try lia).
+    + apply scal_eq; lia.
+    + rewrite IH. apply scal_eq; lia.
 Qed.
 
 Lemma spec_replicate ops ngen li :
@@ -143,7 +146,7 @@ Proof.
     { destruct li; [apply spec_call_log|]. eapply spec_ext; [apply spec_ret| |]; now intros [[? ?] ?]. }
     eapply spec_andthen; [apply spec_tick|]. apply spec_advance.
   - intros [[t tm] rep]. unfold rep_sig. cbn. destruct li; reflexivity.
-  - intros [[t tm] rep]. cbn. repeat (f_equal; try lia).
+  - intros [[t tm] rep]. cbn. apply scal_eq; lia.
 Qed.
 
 Lemma spec_replicates ops ngen li n :
@@ -155,8 +158,8 @@ Proof.
   eapply spec_ext; [apply spec_iter, spec_replicate | |].
   - induction n as [|n IH]; intros [[t tm] rep]; cbn [iter_sig reps_sig]; [reflexivity|]. now rewrite IH.
   - induction n as [|n IH]; intros [[t tm] rep]; cbn [iter_d].
-    + cbn. repeat (f_equal; try lia).
-    + rewrite IH. destruct n; cbn [Nat.eqb]; repeat (f_equal; try lia).
+    + cbn. apply scal_eq; lia.
+    + rewrite IH. destruct n; cbn [Nat.eqb]; apply scal_eq; lia.
 Qed.
 
 Definition init_sig : sigT := (T_INIT, 0%Z, 0%Z, 0%Z).
@@ -179,7 +182,7 @@ Proof.
   destruct (is_initialized st) eqn:Ei.
   - cbn [ret_ok]. specialize (HR st). destruct (iter _ _ st) as [[st' evs] ok]. unfold scal_of in HR.
     cbn [app]. destruct HR as [H1 H2]. split.
-    + intros ->. destruct (H1 eq_refl) as (E & D & _). inversion D. auto.
+    + intros ->. destruct (H1 eq_refl) as (E & D & _). injection D as D1 D2 D3. repeat split; assumption.
     + exact H2.
   - unfold initialize. destruct strict.
     { split; [discriminate|]. intros _. apply prefix_nil. }
@@ -187,7 +190,7 @@ Proof.
     2:{ split; [discriminate|]. intros _. cbn. exists (reps_sig (Z.to_nat nrep) (Z.to_nat ngen) li (p_tmax st) (p_rep st)). reflexivity. }
     match goal with |- context [iter _ _ ?s] => specialize (HR s); destruct (iter _ _ s) as [[st' evs] ok] end.
     unfold scal_of in HR; cbn [p_t p_tmax p_rep] in HR. destruct HR as [H1 H2]. split.
-    + intros ->. destruct (H1 eq_refl) as (E & D & _). inversion D. cbn [map app]. rewrite E. auto.
+    + intros ->. destruct (H1 eq_refl) as (E & D & _). injection D as D1 D2 D3. cbn [map app]. rewrite E. repeat split; assumption.
     + intros ->. cbn [map app]. apply (prefix_app_l [init_sig]). now apply H2.
 Qed.
 
